@@ -294,6 +294,8 @@ def quiescent_end(h):
 def make_cases(prop, behaviours, nkeys, ntimes, concs):
     cases = []
     for i, h in enumerate(behaviours):
+        if not h:
+            continue   # the initial state's empty history is not a behaviour
         for c in concs(i):
             cases.append({'prop': prop, 'nkeys': nkeys, 'ntimes': ntimes, 'conc': c, 'steps': h})
     return cases
